@@ -7,6 +7,7 @@ found `last ≠ segFirst` (i.e. the body ends in — or passes through, before e
 measure is the number of cyclic advances `last` needs to arrive at `segFirst` (`dist`, between 1 and n).
 -/
 import FontVerif.Model.LoopIter
+import FontVerif.Model.FindLastContour
 namespace FontVerif.LoopIterLemmas
 open FontVerif.LoopIter
 
@@ -266,5 +267,12 @@ theorem grows_trans (a b c : St) (h1 : Grows a b) (h2 : Grows b c) : Grows a c :
 
 /-- every index yielded by `cycle_forward` / `cycle_backward` over a non-empty slice is inside it -/
 theorem cycleIx_lt (len start ix : Nat) (h : 0 < len) : cycleIx len start ix < len := Nat.mod_lt _ h
+
+/-- loop invariant of `find_last_contour` (Model/FindLastContour.lean) at the top of iteration `p` -/
+def FlcInv (isStart : Nat → Bool) (len p : Nat) (st : FontVerif.FindLastContour.FS) : Prop :=
+  st.cS ≤ st.cE ∧ st.cE ≤ p ∧ st.bE ≤ p ∧
+  (p < len → isStart p = false → st.cE = p) ∧
+  (st.found = true → st.cS + st.bP < st.cE) ∧
+  (st.found = false → st.bS < st.bE → st.bS + st.bP < st.bE)
 
 end FontVerif.LoopIterLemmas
